@@ -4,7 +4,7 @@ PROP = {
     "bin": "c20",
     "coq_targets": ["theories/Arch/C20Check"],
     "n": {"quick": 85, "thorough": 85},
-    "theorems": ["cc_ok_sound", "cases_are_cc_ok", "coverage_sound", "cc_ok_complete", "clause_complete_partial", "clause_complete_stack_base", "clause_complete_stack_stride"],
+    "theorems": ["cc_ok_sound", "cases_are_cc_ok", "coverage_sound", "coverage_complete", "cc_ok_complete", "clause_complete_partial", "clause_complete_stack_base", "clause_complete_stack_stride"],
     "rule": "finite configuration property: one case per (architecture, clause) for the 7 architectures x 12 clauses, plus one "
             "coverage case; the tables are regenerated from the code on every run; every case is non-trivial; distinct by (architecture, clause)",
     "trusted_base": [KERNEL, HARNESS_TB,
